@@ -8,8 +8,8 @@
 import Stevia.Proofs.TreeState
 import Stevia.Proofs.HashSetState
 import Stevia.Proofs.BytesRT
-import Stevia.Proofs.GenTreeQuery32
-import Stevia.Proofs.GenTreeQuery8
+import Stevia.Proofs.GenTreeOpen32
+import Stevia.Proofs.GenTreeOpen8
 
 namespace Stevia.C04
 open Stevia
